@@ -173,6 +173,7 @@ type hsClient struct{}
 func init() { register("hs-client", hsClient{}) }
 
 type cliRun struct {
+	raw         string // every byte written in clear, write by write
 	result      string
 	established bool
 	secure      bool
@@ -247,6 +248,9 @@ func runClientOnce(sec bool, mgrMode, must, peer string, chunks [][]byte, alt bo
 		req2 = hexCap(conn.writes[1])
 	}
 	r.extraWrites = nw > 2
+	for _, w := range conn.writes {
+		r.raw += hexs(w) + "|"
+	}
 	conn.mu.Unlock()
 	wtxt := fmt.Sprintf(" w=%d req2=%s", nw, req2)
 	if err != nil || sut == nil {
@@ -308,20 +312,29 @@ func findClientConn(c interface{}) *socketace.ClientConnection {
 }
 
 func (hsClient) Exec(op string) (string, string, string, bool) {
+	if strings.HasPrefix(op, "par ") {
+		return hsPar("hs-client", hsClientSingle, op)
+	}
+	res, mon, class, nt, _ := hsClientSingle(op)
+	return res, mon, class, nt
+}
+
+// hsClientSingle runs one connection's op; `detail` is everything the client wrote in clear, byte for byte.
+func hsClientSingle(op string) (string, string, string, bool, string) {
 	t := strings.Split(op, " ")
 	if len(t) != 6 {
-		return "bad-op", "", "bad", false
+		return "bad-op", "", "bad", false, ""
 	}
 	data, err := parseScript(t[4])
 	if err != nil {
-		return "bad-op", "", "bad", false
+		return "bad-op", "", "bad", false, ""
 	}
 	segs := strings.Split(t[5], "/")
 	var runs []cliRun
 	for i, sg := range segs {
 		chunks, err := applySeg(sg, data)
 		if err != nil {
-			return "bad-op", "", "bad", false
+			return "bad-op", "", "bad", false, ""
 		}
 		runs = append(runs, runClientOnce(t[0] == "1", t[1], t[2], t[3], chunks, i%2 == 1))
 	}
@@ -383,7 +396,11 @@ func (hsClient) Exec(op string) (string, string, string, bool) {
 	if r0.established {
 		class = "established-" + r0.tech
 	}
-	return res, mon, class, r0.established
+	detail := ""
+	for _, r := range runs {
+		detail += r.raw + "/"
+	}
+	return res, mon, class, r0.established, detail
 }
 
 // offeredStartTLS: the first reply carries a plainly spelled `Capabilities:` header (first one wins) that lists StartTLS.
@@ -625,4 +642,6 @@ func (hsClient) Gen(r *Rand, tier string, emit func(string)) {
 		}
 		send("0", r.Pick([]string{"nil", "skip"}), must, "eof", base)
 	}
+	// 8. several connections at the same moment (c06_par.go)
+	hsClientParGen(r, tier, emit)
 }
